@@ -129,9 +129,12 @@ impl<T: High + Low + Close + Volume> Next<&T> for MoneyFlowIndex {
         }
         self.previous_typical_price = tp;
 
-        self.total_positive_money_flow
-            / (self.total_positive_money_flow + self.total_negative_money_flow)
-            * 100.0
+        let total = self.total_positive_money_flow + self.total_negative_money_flow;
+        if total == 0.0 {
+            // no money flow in the window
+            return 50.0;
+        }
+        self.total_positive_money_flow / total * 100.0
     }
 }
 
